@@ -136,6 +136,17 @@ Definition apply_change (old : list desc) (ch : option rchange) : option (list d
       else (if dirty then Some cl else None)
   end.
 
+(* utils.go decodeJSON, as the translator reads it from the source: the body is read through
+   content.ReadAll (exactly desc.Size bytes whose digest is desc.Digest) before it is decoded *)
+Fixpoint strs_eqb (x y : list str) : bool :=
+  match x, y with
+  | [], [] => true
+  | a :: x', c :: y' => str_eqb a c && strs_eqb x' y'
+  | _, _ => false
+  end.
+Definition decode_json_verifies : bool :=
+  strs_eqb decodeJSON_calls [b "content.ReadAll"; b "json.Unmarshal"].
+
 (* buildReferrersTag: <alg>-<encoded> *)
 Definition ref_tag (dg : str) : str := map (fun c => if c =? 58 then 45 else c) dg.
 
@@ -438,7 +449,8 @@ Section Client.
     match res with
     | RDescBytes d body =>
         if limit <? d_sz d then (s1, t1, RErr EOther, None)
-        else if negb (len body =? d_sz d) || negb (str_eqb (H body) (d_dg d)) then (s1, t1, RErr EOther, None)
+        else if decode_json_verifies && (negb (len body =? d_sz d) || negb (str_eqb (H body) (d_dg d)))
+        then (s1, t1, RErr EOther, None)
         else match index_of body with
              | Some l => (s1, t1, ROk, Some (d, l))
              | None => (s1, t1, RErr EOther, None)
